@@ -45,8 +45,6 @@ CHECKS = {
  "C20": ("model_checking","explicit-state BFS over all interleavings of deliver/respond/drop/shutdown on the real Service with a scripted handler","ssim",
    "All interleavings of three concurrently delivered TALK requests (two peers, one reused id), respond / drop / hold per request object and shutdown at any point, on the real Discv5: exactly one TALKRESP per request with the right id, address and payload while running; no panic and an error value after shutdown. The graph is finite and explored completely.",
    "The scripted handler drops its receiver when told to exit, as the real one does.","3/C20"),
-}
-
  "C11": ("model_checking","exhaustive enumeration of request classes x answer shapes on real services (requester and responder both the real Service, relayed by the harness; scripted malicious responder), one world per process, against a reference NODES validator","ssim",
    "World A: for every log2-distance class 0..256 between lookup target and responder (every request list the lookup code can produce) and three responder table contents, a real responder service answers a real requester service: never banned, all records reach the lookup. World B: every answer of up to 2 (thorough 3) packets over 11 packet contents x 8 claimed totals (+ inconsistent totals, failure after a partial answer), floods of 22 packets and packets after completion, against a reference (completion point, on-distance filter, ban iff an off-distance record was processed).",
    "Real keys cannot be generated at low distances: for low request classes the only on-distance record is the responder's own. Process-global ban list: one world per execution, shards are processes.","3/C11"),
@@ -56,6 +54,7 @@ CHECKS = {
  "C17": ("model_checking","explicit-state BFS over histories of PONG votes, failures and time passing on the real Service with a scripted handler; reference vote ledger","ssim",
    "All histories up to the stated depth over {PONG(voter, address) answering a real service ping, request failure, ping interval, vote expiry} for minimum 2 and 3, 4-5 voters of mixed connection direction, IPv4 and dual-stack: whenever the local record's UDP address changes, the new address has at least the minimum number of distinct unexpired voters (clear-majority margin in all-eligible worlds), seq increases, signature verifies, exactly one SocketUpdated event.",
    "Which PONGs count as votes is implementation policy: the margin clause is checked in worlds where every voter is eligible; mixed worlds check the policy-independent minimum clause.","3/C17"),
+}
 
 NA_REASON = "check not built yet (work in progress; see DESIGN.md for the planned engine)"
 
